@@ -24,7 +24,7 @@ Space == [nch : 1..3, cfgs : [1..3 -> ChanCfg], sizes : Sizes, count : {5, 40}, 
           slow : BOOLEAN]      \* the receiving application is slow to take the announced channel (registers its handler late)
 \* a reliable ordered channel whose receiving application takes seconds to register its handler
 RelOrd == [ordered |-> TRUE, rel |-> "reliable", protocol |-> "", text |-> TRUE]
-SlowVecs == {[nch |-> 1, cfgs |-> [i \in 1..3 |-> RelOrd], sizes |-> "1k", count |-> 5, side |-> sd, net |-> "loopback", slow |-> TRUE] :
+SlowVecs == {[nch |-> 1, cfgs |-> [i \in 1..3 |-> RelOrd], sizes |-> "mixed", count |-> 5, side |-> sd, net |-> "loopback", slow |-> TRUE] :
                sd \in {"offerer", "answerer"}}
 Init == /\ inflight = [c \in Chans |-> <<>>] /\ delivered = [c \in Chans |-> <<>>] /\ nsent = [c \in Chans |-> 0]
         \* a lossy network makes bulk transfers slow (every loss costs a retransmission time-out): few messages there
